@@ -190,6 +190,14 @@ def explore(ob, known, seed=0, max_witness=2000):
             cargs = None
             with NoTracing():
                 res.setdefault("realise_errors", []).append(repr(e)[:200])
+        # render a violation's detail while tracing is still on (its lambda may format symbolic values; doing that
+        # under NoTracing raises CrossHairInternal). The path is already detached, so this cannot grow the tree.
+        vdetail = ""
+        if isinstance(user_exc, Violation) and str(user_exc.sig) not in known:
+            try:
+                vdetail = str(user_exc.detail)[:500]
+            except BaseException as e:  # noqa: B036 - CrossHair control-flow exceptions are BaseExceptions
+                vdetail = f"<detail unavailable: {type(e).__name__}>"
         with NoTracing():
             if user_exc is None:
                 oc = str(ret)
@@ -200,7 +208,7 @@ def explore(ob, known, seed=0, max_witness=2000):
                     res["known_hit"][s] = res["known_hit"].get(s, 0) + 1
                 else:
                     oc = f"VIOLATION:{s}"
-                    res["cex"] = {"args": cargs, "source": "symbolic", "clause": str(user_exc.clause), "sig": s, "detail": str(user_exc.detail)[:500]}
+                    res["cex"] = {"args": cargs, "source": "symbolic", "clause": str(user_exc.clause), "sig": s, "detail": vdetail}
             else:
                 s = f"unexpected-exception/{type(user_exc).__name__}"
                 if s in known:
